@@ -727,10 +727,12 @@ func stateBeginArrayItemOrEmpty(s *Scanner, c byte) state {
 	if c == ']' {
 		return stateFoundArrayEnd(s)
 	}
-	if s.annotation == annotationNone {
+	r := stateBeginValue(s, c)
+	if r != scanContinue && s.annotation == annotationNone {
+		// An item begins: blanks and annotations before it aren't an item.
 		s.context.ArrayHasItem = true
 	}
-	return stateBeginValue(s, c)
+	return r
 }
 
 // after reading `{`
